@@ -197,8 +197,10 @@ type hop struct {
 
 type delivery struct {
 	hops    []hop
-	lookups map[string][]net.IP
+	lookups map[string][]net.IP // latest answer per host
 	failed  map[string]bool
+	first   map[string][]net.IP // first answer per host in this delivery (the first-hop check)
+	firstFailed map[string]bool
 }
 
 type dmsg struct {
@@ -269,7 +271,7 @@ func (w *DispatchWorld) curDelivery() *delivery {
 	}
 	d := w.cur[t]
 	if d == nil {
-		d = &delivery{lookups: map[string][]net.IP{}, failed: map[string]bool{}}
+		d = &delivery{lookups: map[string][]net.IP{}, failed: map[string]bool{}, first: map[string][]net.IP{}, firstFailed: map[string]bool{}}
 		w.cur[t] = d
 	}
 	return d
@@ -292,6 +294,10 @@ func NewDispatchWorld(spec *SysSpec, offset int64, seed int64, arm func(string) 
 	w.SysWorld = sw
 	w.Net.OnLookup = func(host string, ips []net.IP, failed bool) {
 		if d := w.curDelivery(); d != nil {
+			if _, seen := d.first[host]; !seen {
+				d.first[host] = ips
+				d.firstFailed[host] = failed
+			}
 			d.lookups[host] = ips
 			d.failed[host] = failed
 		}
@@ -353,7 +359,7 @@ func (w *DispatchWorld) onAttempt(a queue.DeliveryAttempt, err error) {
 	d := w.cur[t]
 	delete(w.cur, t)
 	if d == nil {
-		d = &delivery{}
+		d = &delivery{lookups: map[string][]net.IP{}, failed: map[string]bool{}, first: map[string][]net.IP{}, firstFailed: map[string]bool{}}
 	}
 	dm := w.byID[a.EventID]
 	loc := "dispatch/attempt"
@@ -382,8 +388,8 @@ func (w *DispatchWorld) onAttempt(a queue.DeliveryAttempt, err error) {
 	firstAllowed, firstWhy := true, ""
 	{
 		host := strings.TrimSuffix(strings.ToLower(target.Hostname()), ".")
-		ips, looked := d.lookups[host]
-		if d.failed[host] {
+		ips, looked := d.first[host]
+		if d.firstFailed[host] {
 			// lookup failed: an ordinary retryable error, nothing may be sent
 			firstAllowed, firstWhy = true, "dnsfail"
 		} else {
